@@ -57,6 +57,32 @@ def _ops_for(ctx, rng, n):
     return ops
 
 
+def _quantised_result_ops(ctx, rng, n):
+    """products / quotients whose RESULT type has a quantum (DataThroughput x
+    Duration -> DataVolume, both operand orders; DataVolume x number): the
+    exact result is rounded once, whichever operand comes first"""
+    thr = [u for u in ctx.units if ctx.units[u]["cls"] == "DataThroughput"]
+    dur = [u for u in ctx.units if ctx.units[u]["cls"] == "Duration"]
+    frq = [u for u in ctx.units if ctx.units[u]["cls"] == "Frequency"]
+    vol = [u for u in ctx.units if ctx.units[u]["cls"] == "DataVolume"]
+    ops = []
+    for _ in range(n):
+        a = _qty.tok(rng, Fraction(rng.randint(1, 10 ** 6), rng.choice([1, 10, 100, 1000, 7, 3])))
+        b = _qty.tok(rng, Fraction(rng.randint(1, 10 ** 4), rng.choice([1, 10, 100, 8, 3])))
+        r = rng.random()
+        if r < .3:
+            ops.append(["q_bin", "mul", f"{a}@{rng.choice(thr)}", f"{b}@{rng.choice(dur)}", MODE])
+        elif r < .6:
+            ops.append(["q_bin", "mul", f"{b}@{rng.choice(dur)}", f"{a}@{rng.choice(thr)}", MODE])
+        elif r < .75:
+            ops.append(["q_bin", "div", f"{a}@{rng.choice(thr)}", f"{b}@{rng.choice(frq)}", MODE])
+        elif r < .9:
+            ops.append(["q_unit", rng.choice(["mul", "rmul"]), f"{a}@{rng.choice(thr)}", rng.choice(dur), MODE])
+        else:
+            ops.append(["q_unit", rng.choice(["mul", "rmul"]), f"{b}@{rng.choice(dur)}", rng.choice(thr), MODE])
+    return ops
+
+
 def gen_cases(rng, tier):
     n_user = 40 if tier == "thorough" else 6
     n_pre = 6 if tier == "thorough" else 2
@@ -64,7 +90,14 @@ def gen_cases(rng, tier):
     cases = []
     for _ in range(n_pre):
         ctx = _qty.predefined_ctx()
-        cases.append(_qty.case_of(ctx, _ops_for(ctx, rng, per), ["random"]))
+        cases.append(_qty.case_of(ctx, _ops_for(ctx, rng, per) +
+                                  _quantised_result_ops(ctx, rng, per // 2), ["random"]))
+    # declaration histories with operations attempted BEFORE their result type
+    # exists and repeated after it has been declared (the oracle of C17)
+    from props import C17
+    for c in C17.gen_cases(rng, "quick")[:(12 if tier == "thorough" else 4)]:
+        c["tags"] = c.get("tags", []) + ["early-ops"]
+        cases.append(c)
     for _ in range(n_user):
         ctx = _qty.user_ctx(rng, rng.randint(10, 20))
         cases.append(_qty.case_of(ctx, _ops_for(ctx, rng, per), ["random"]))
@@ -112,6 +145,9 @@ def check_pair(ctx, out, ref_value, dim, what):
 
 
 def oracle(case, impl):
+    if "cls_after" in case:
+        from props import C17
+        return C17.oracle(case, impl)
     ctx = _qty.ctx_of(case)
     fails = _qty.setup_failures(case, impl)
     for o, out in list(zip(case["ops"], impl))[case["nsetup"]:]:
@@ -191,6 +227,9 @@ def oracle(case, impl):
 
 def nontrivial_key(case, impl):
     keys = set()
+    if "cls_after" in case:
+        from props import C17
+        return C17.nontrivial_key(case, impl)
     for o in case["ops"][case["nsetup"]:]:
         keys.add(tuple(x.rpartition("@")[2] if "@" in x else x for x in o[:4]))
     return keys
